@@ -226,9 +226,14 @@ func (g *Gen) fill(k Kind, depth int, hidden bool) *Node {
 	case Wrap:
 		n.Kids = []*Node{g.node(depth+1, hidden)}
 	case Multi:
+		// mostly 2..4 branches; a multi-cause error with exactly one branch is
+		// legal too (errors.Join(e), a user multi-error with one cause)
 		nk := 2
 		if g.budget > 3 {
 			nk += g.T.Draw(3)
+		}
+		if g.T.Bool(1, 6) {
+			nk = 1
 		}
 		if nk > g.budget {
 			nk = g.budget
@@ -269,14 +274,41 @@ func (b *Builder) Build(n *Node) error {
 	return b.build(n)
 }
 
-func (b *Builder) build(n *Node) error {
+//go:noinline
+func (b *Builder) viaA(n *Node) error { return b.build0(n) }
+
+//go:noinline
+func (b *Builder) viaB(n *Node) error { return b.build0(n) }
+
+//go:noinline
+func (b *Builder) viaH(n *Node) error { return b.build0(n) }
+
+//go:noinline
+func (b *Builder) build0(n *Node) error { return b.buildNode(n) }
+
+// build keeps the same stack depth as the via* trampolines.
+//
+//go:noinline
+func (b *Builder) build(n *Node) error { return b.build0(n) }
+
+func (b *Builder) buildNode(n *Node) error {
 	kids := make([]error, len(n.Kids))
 	for i, k := range n.Kids {
-		kids[i] = b.build(k)
+		// siblings are built through different (non-inlined) call paths of
+		// equal depth, as in real programs, so that their captured stacks
+		// share the innermost and outermost frames but not the middle ones
+		switch i % 3 {
+		case 0:
+			kids[i] = b.build(k)
+		case 1:
+			kids[i] = b.viaA(k)
+		default:
+			kids[i] = b.viaB(k)
+		}
 	}
 	hid := make([]error, len(n.Hid))
 	for i, h := range n.Hid {
-		hid[i] = b.build(h)
+		hid[i] = b.viaH(h)
 		if b.ReplaceHidden != nil {
 			hid[i] = b.ReplaceHidden(n, i, hid[i])
 		}
